@@ -588,6 +588,10 @@ func (tree *MutableTree) enableFastStorageAndCommitIfNotEnabled() (bool, error) 
 			return false, err
 		}
 	}
+	if err := fastItr.Error(); err != nil {
+		// stale fast nodes may be left: do not go on to label the index as current
+		return false, err
+	}
 
 	if err := tree.enableFastStorageAndCommit(); err != nil {
 		tree.ndb.storageVersion = defaultStorageVersionValue
